@@ -18,7 +18,10 @@ its block, so the out-parameters then hold the state *before* the block.
 
 Out-parameters (`entry`, `exit`, `ip`) are uninitialised in C++; the model takes
 their initial values as arguments and returns the final values, also when the
-result is `false` (the correspondence compares them in every case).
+result is `false`.  The correspondence (tools/props/c14.py) compares them whenever
+the result is `true` — including the case where they were never assigned and still
+hold the initial values; what they hold after a `false` result is unspecified by
+the property and only counted as an observation.
 -/
 namespace ImathVerif.RayBox
 
